@@ -80,14 +80,17 @@ META = {
         "records what it received. Reference: inspect.signature(f).bind_partial(*args, **kwargs) gives the parameter each value "
         "belongs to; expected value = TypeAdapter(annotation).validate_python(v) when that succeeds and parsing is on, else v "
         "in wire (dict/list) form. Round trip: for every generated TaskiqMessage and every importable bundled formatter "
-        "(ProxyFormatter x {JSON, pickle}, JSONFormatter) loads(dumps(m).message) == m. distinct_nontrivial = distinct "
+        "(ProxyFormatter x {JSON, pickle}, JSONFormatter) loads(dumps(m).message) == m. Confusable scalars: every ordered pair "
+        "of {0, False, 0.0, -0.0, 1, True, 1.0, 5, 5.0, '1', '1.0', 'True'} sent one after the other (and together in one message) to "
+        "a parameter annotated Any / un-annotated / float / int / str / bool / Union[int, float] / datetime / Decimal / object, in one "
+        "process: each arrives as TypeAdapter says, type and sign of zero included, whatever was sent before. distinct_nontrivial = distinct "
         "(signature kinds, split, scheme, validate) classes."
     ),
     "assumptions": [
         "ORJSON / MsgPack / CBOR serializers cannot be imported in this image and are not covered",
         "values are drawn from a small JSON-representable alphabet; conversion itself is delegated to pydantic in both code and reference, the oracle is about binding",
     ],
-    "required_counters": ["sends", "converted_params", "unannotated_before_annotated", "roundtrips"],
+    "required_counters": ["sends", "converted_params", "unannotated_before_annotated", "roundtrips", "confusable_sends"],
     "bounds": {"quick": {"max_params": 3, "kw_tail": "<=1 for <=2 params"}, "thorough": {"max_params": 4, "kw_tail": "<=2"}},
 }
 
@@ -403,14 +406,114 @@ def _sig_text(pos: str, tail: str) -> str:
     return ", ".join(parts)
 
 
+# ---- values that are == and hash-equal but differ in type or sign, sent one after the other --------------
+import datetime as _dt  # noqa: E402
+import decimal as _dec  # noqa: E402
+import math as _math  # noqa: E402
+
+CONFUSABLE = [0, False, 0.0, -0.0, 1, True, 1.0, 5, 5.0, "1", "1.0", "True"]
+CONF_ANNOT: Dict[str, Any] = {
+    "Any": Any, "none": None, "float": float, "int": int, "str": str, "bool": bool, "IntOrFloat": typing.Union[int, float],
+    "datetime": _dt.datetime, "Decimal": _dec.Decimal, "object": object,
+}
+
+
+def _strict_same(a: Any, b: Any) -> bool:
+    if type(a) is not type(b):
+        return False
+    if isinstance(a, float):
+        return (a == b and _math.copysign(1.0, a) == _math.copysign(1.0, b)) or (a != a and b != b)
+    return a == b
+
+
+def run_confusables(acc: Acc, only: Any = None) -> None:
+    """Ordered pairs (and one message carrying both) of values that compare and hash equal - 1 / True / 1.0,
+    0 / False / 0.0 / -0.0, 5 / 5.0 - or look alike ('1'), sent one after the other in this process to the
+    same annotation: each must arrive as TypeAdapter(annotation).validate_python(value) says, type and sign
+    included, whatever was sent before."""
+    from taskiq.abc.broker import AsyncBroker
+    from taskiq.receiver import Receiver
+    from mc.vloop import run_sync
+
+    for aname, ann in CONF_ANNOT.items():
+        rec: List[Any] = []
+        ns: Dict[str, Any] = {"rec": rec, "ANN": ann}
+        if ann is None:
+            exec("async def conf_task(a, b=None):\n    rec.append((a, b))\n", ns)  # noqa: S102
+        else:
+            exec("async def conf_task(a: ANN, b: ANN = None):\n    rec.append((a, b))\n", ns)  # noqa: S102
+        fn = ns["conf_task"]
+        fn.__module__ = "mc.props.c08"
+        wire: List[bytes] = []
+
+        class B(AsyncBroker):
+            async def kick(self, message: Any) -> None:
+                wire.append(message.message)
+
+            async def listen(self):  # pragma: no cover
+                yield b""
+
+        b = B()
+        task = b.register_task(fn, task_name=f"c08:conf:{aname}")
+        recv = Receiver(b, run_startup=False, validate_params=True, max_async_tasks=1)
+        ad = pydantic.TypeAdapter(ann) if ann is not None else None
+
+        def want(v: Any) -> Any:
+            if ad is None:
+                return v
+            try:
+                return ad.validate_python(v)
+            except (ValueError, RuntimeError):
+                return v
+
+        def send(args: Tuple[Any, ...], history: List[Any]) -> None:
+            rec.clear()
+            wire.clear()
+            err = None
+            try:
+                run_sync(task.kiq(*args))
+                run_sync(recv.callback(wire[0]))
+            except BaseException as exc:
+                err = exc
+            acc.evaluations += 1
+            acc.count("sends")
+            acc.count("confusable_sends")
+            case = {"confusable": {"annotation": aname, "history": [repr(h) for h in history], "args": [repr(a) for a in args]}}
+            if err is not None or len(rec) != 1:
+                acc.violation("send-or-execute-failed", f"{case}: error={err!r}, executions={len(rec)}", case)
+                return
+            got = rec[0]
+            for j, v in enumerate(args):
+                w = want(v)
+                acc.outcome(("conf", aname, repr(v), type(w).__name__))
+                if not _strict_same(got[j], w):
+                    acc.violation(
+                        "value-changed-by-earlier-send",
+                        f"parameter {'ab'[j]}: {aname} was sent {v!r} after {[repr(h) for h in history]} and received {got[j]!r} "
+                        f"({type(got[j]).__name__}), expected {w!r} ({type(w).__name__})",
+                        case,
+                    )
+                    return
+
+        for v1, v2 in itertools.permutations(CONFUSABLE, 2):
+            if only is not None and [aname, repr(v1), repr(v2)] != only:
+                continue
+            send((v1,), [])
+            send((v2,), [v1])
+            send((v1, v2), [v1, v2])
+
+
 def shards(tier: str, seed: int) -> List[Any]:
     sigs = signatures(tier)
     step = 12 if tier == "quick" else 25
-    return [{"tier": tier, "lo": i, "hi": min(i + step, len(sigs))} for i in range(0, len(sigs), step)]
+    return [{"tier": tier, "lo": i, "hi": min(i + step, len(sigs))} for i in range(0, len(sigs), step)] + [{"confusables": True}]
 
 
 def run_shard(shard: Dict[str, Any]) -> Dict[str, Any]:
     acc = Acc()
+    if shard.get("confusables"):
+        run_confusables(acc)
+        return acc.as_dict()
     sigs = signatures(shard["tier"])
     for sig in sigs[shard["lo"] : shard["hi"]]:
         run_signature(sig, acc, ["json", "pickle"])
@@ -419,6 +522,11 @@ def run_shard(shard: Dict[str, Any]) -> Dict[str, Any]:
 
 def replay(obj: Dict[str, Any]) -> int:
     acc = Acc()
+    if "confusable" in obj:
+        run_confusables(acc)  # the whole family in the recorded order: the violation depends on what was sent before
+        for k, v in acc.violations.items():
+            print("oracle:", k, "-", v["message"])
+        return 1 if acc.violations else 0
     c = obj["case"]
     run_signature((c["positional"], c["kwonly"]), acc, [c["serializer"]])
     for k, v in acc.violations.items():
